@@ -5,8 +5,10 @@ import NeumannModel.KV.Model
 
     run <wal:0|1> <programs> <schedule>
       programs : threads separated by `|`, ops by `;`  (`-` = empty program)
-        op     : P,<key>,<val> | G,<key> | D,<key> | E,<key> | S,<cls|*> | PD,<key>,<val> | DD,<key>
-        key    : <p|g|t|c|e><id>          val : <tag>.<n|g<t>|b<t>>
+        op     : P,<key>,<val> | G,<key> | D,<key> | E,<key> | S,<prefix> | PD,<key>,<val> | DD,<key>
+        key    : <p|g|t|c|e><id> (= user:<id> node:<id> table:<id> _cache:<id> emb:<id>) | x<hex of the UTF-8 bytes>
+        prefix : * (= "") | <p|g|t|c|e> (= the class prefix) | x<hex>
+        val    : <tag>.<n|g<t>|b<t>>
       schedule : comma separated thread numbers (`-` = empty)
     answer: trace <t>:<site>:<key>,…  | hist <t>.<i>:<inv>-<ret>:<res>,… | image <key>=<get>/<exists>/<inscan>,…
             | wal <records> | rimage <image of the store recovered from the log>   (last two only with wal=1)
@@ -20,22 +22,71 @@ open Neumann Neumann.Proto Neumann.KV
 def clsChar : KeyClass → String
   | .plain => "p" | .graph => "g" | .table => "t" | .cache => "c" | .emb => "e"
 
-def clsOrd : KeyClass → Nat
-  | .plain => 0 | .graph => 1 | .table => 2 | .cache => 3 | .emb => 4
-
 def parseCls (c : Char) : Option KeyClass :=
   if c = 'p' then some .plain else if c = 'g' then some .graph else if c = 't' then some .table
   else if c = 'c' then some .cache else if c = 'e' then some .emb else none
 
-def parseKey (s : String) : Option Key :=
+def allClasses : List KeyClass := [.plain, .graph, .table, .cache, .emb]
+
+def hexVal (c : Char) : Option Nat :=
+  if '0' ≤ c ∧ c ≤ '9' then some (c.toNat - 48)
+  else if 'a' ≤ c ∧ c ≤ 'f' then some (c.toNat - 87) else none
+
+def parseHex : List Char → Option (List Nat)
+  | [] => some []
+  | a :: b :: r => do
+      let x ← hexVal a
+      let y ← hexVal b
+      let rest ← parseHex r
+      pure ((16 * x + y) :: rest)
+  | _ => none
+
+def hexDigit (n : Nat) : Char := if n < 10 then Char.ofNat (48 + n) else Char.ofNat (87 + n)
+
+def showHex (bs : List Nat) : String := String.ofList (bs.flatMap fun b => [hexDigit (b / 16), hexDigit (b % 16)])
+
+/-- canonical decimal: digits only, no leading zero -/
+def isDecimal (bs : List Nat) : Bool :=
+  !bs.isEmpty && bs.all (fun b => 48 ≤ b && b ≤ 57) && (bs.length == 1 || bs.head? != some 48)
+
+/-- `<p|g|t|c|e><digits>` = `user:` / `node:` / `table:` / `_cache:` / `emb:` + the digits; `x<hex>` = any bytes -/
+def parseBytes (s : String) : Option (List Nat) :=
   match s.toList with
+  | 'x' :: rest => parseHex rest
   | c :: rest => do
       let cl ← parseCls c
-      let n ← (String.ofList rest).toNat?
-      pure ⟨cl, n⟩
+      let ds := rest.map Char.toNat
+      if isDecimal ds then pure (clsPrefix cl ++ ds) else none
   | [] => none
 
-def showKey (k : Key) : String := clsChar k.cls ++ toString k.id
+def parseKey (s : String) : Option Key := (parseBytes s).map Key.mk
+
+def stripPfx : List Nat → List Nat → Option (List Nat)
+  | [], k => some k
+  | _ :: _, [] => none
+  | a :: p, b :: k => if a = b then stripPfx p k else none
+
+def showBytes (bs : List Nat) : String :=
+  match allClasses.filterMap (fun c => (stripPfx (clsPrefix c) bs).bind fun r =>
+      if isDecimal r then some (clsChar c ++ String.ofList (r.map Char.ofNat)) else none) with
+  | a :: _ => a
+  | [] => "x" ++ showHex bs
+
+def showKey (k : Key) : String := showBytes k.bytes
+
+/-- a scan prefix: `*` = "", a class letter = the class prefix, `x<hex>` = any bytes -/
+def parsePfx (s : String) : Option (List Nat) :=
+  if s = "*" then some [] else
+  match s.toList with
+  | [ch] => (parseCls ch).map clsPrefix
+  | 'x' :: rest => parseHex rest
+  | _ => none
+
+def showPfx (p : List Nat) : String :=
+  if p.isEmpty then "*" else
+  match allClasses.filter (fun c => clsPrefix c = p) with
+  | c :: _ => clsChar c
+  | [] => "x" ++ showHex p
 
 def parseVec (s : String) : Option VecF :=
   match s.toList with
@@ -65,10 +116,7 @@ def parseOp (s : String) : Option Op :=
   | ["D", k] => (parseKey k).map .delete
   | ["DD", k] => (parseKey k).map .delD
   | ["E", k] => (parseKey k).map .exists_
-  | ["S", "*"] => some (.scan none)
-  | ["S", c] => (match c.toList with
-      | [ch] => (parseCls ch).map (fun cl => .scan (some cl))
-      | _ => none)
+  | ["S", p] => (parsePfx p).map .scan
   | _ => none
 
 def parseProg (s : String) : Option (List Op) :=
@@ -76,8 +124,8 @@ def parseProg (s : String) : Option (List Op) :=
 
 def parseProgs (s : String) : Option (List (List Op)) := (s.splitOn "|").mapM parseProg
 
-def keyLe (a b : Key) : Bool :=
-  clsOrd a.cls < clsOrd b.cls || (clsOrd a.cls == clsOrd b.cls && a.id ≤ b.id)
+/-- byte-wise order of the key strings (Rust's `String: Ord`) -/
+def keyLe (a b : Key) : Bool := bleq a.bytes b.bytes
 
 def sortKeys (ks : List Key) : List Key := (ks.mergeSort keyLe).eraseDups
 
@@ -102,8 +150,7 @@ def siteOf (op : Op) : PC → String
   | .delDAfterLog => "router.delete_durable.after_log"
 
 def opKeyStr : Op → String
-  | .scan none => "*"
-  | .scan (some c) => clsChar c
+  | .scan p => showPfx p
   | .put k _ | .get k | .delete k | .exists_ k | .putD k _ | .delD k => showKey k
 
 def showEntry : Entry → String
@@ -130,8 +177,7 @@ def showOp : Op → String
   | .delete k => s!"D,{showKey k}"
   | .delD k => s!"DD,{showKey k}"
   | .exists_ k => s!"E,{showKey k}"
-  | .scan none => "S,*"
-  | .scan (some c) => s!"S,{clsChar c}"
+  | .scan p => s!"S,{showPfx p}"
 
 def showProgs (ps : List (List Op)) : String :=
   "|".intercalate (ps.map fun p => if p.isEmpty then "-" else ";".intercalate (p.map showOp))
